@@ -199,6 +199,10 @@ impl Pipe {
             w.wake();
         }
     }
+    /// the writer of this direction has shut its side down (or was dropped)
+    pub fn writer_is_closed(&self) -> bool {
+        self.writer_closed
+    }
     pub fn is_idle(&self) -> bool {
         self.inflight.is_empty() && self.delivered.is_empty()
     }
